@@ -110,6 +110,7 @@ func RunTimedWorld(r sim.Src, mons []*sim.Mon, keepLog bool, sh TimedShape) *sim
 	lateTx := false
 	switch sh.Kind {
 	case "c08":
+		cfg.HonourStopTxFlow = true
 		slowRound := r.Intn("slowround", 3) == 0
 		if slowRound {
 			// slow but still synchronous rounds: three hops fit well inside one block time,
@@ -149,6 +150,7 @@ func RunTimedWorld(r sim.Src, mons []*sim.Mon, keepLog bool, sh TimedShape) *sim
 			}
 		}
 	case "c16":
+		cfg.HonourStopTxFlow = true
 		o.Heights = 3 + r.Intn("heights", 3)
 		ratio := []int{2, 3, 4, 6, 16}[r.Intn("ratio", 5)] // MaxTimePerBlock / TimePerBlock in halves
 		if r.Intn("dynoff", 6) == 0 {
